@@ -19,6 +19,7 @@ package drive
 
 import (
 	"bufio"
+	"encoding/binary"
 	"encoding/json"
 	"fmt"
 	"math/rand"
@@ -26,6 +27,7 @@ import (
 	"net/http"
 	"strings"
 	"time"
+	"unicode/utf8"
 
 	"github.com/gorilla/websocket"
 
@@ -67,8 +69,13 @@ func RunBoundary(p *BProg) (evs []Ev) {
 
 	frs := make([]Ev, len(r.cf))
 	for i, f := range r.cf {
+		code, u8 := -1, true
+		if f.Op == 8 && len(f.payload) >= 2 {
+			code = int(binary.BigEndian.Uint16(f.payload))
+			u8 = utf8.Valid(f.payload[2:])
+		}
 		frs[i] = Ev{"op": f.Op, "fin": f.Fin, "r1": f.R1, "r2": f.R2, "r3": f.R3, "mk": f.Mk,
-			"len": len(f.payload), "lk": f.Lk, "min": !f.NonMin, "code": -1, "utf8": true,
+			"len": len(f.payload), "lk": f.Lk, "min": !f.NonMin, "code": code, "utf8": u8,
 			"arr": "full", "h2": true, "hdrOK": true, "pgot": len(f.payload), "plain": f.Plain, "comp": f.Comp != ""}
 	}
 	evs = append(evs, Ev{"e": "Reset", "tid": p.ID, "raw": false,
